@@ -687,7 +687,11 @@ func (x *Unit) contractEnv(st, old *State, pc *preparedCall, rets []Term) *specE
 	if len(rets) > 0 {
 		names["result"] = rets[0]
 	}
-	return &specEnv{x: x, cur: st, old: old, names: names, noLocals: true}
+	tp := ""
+	if pc.contract != nil {
+		tp = pc.contract.Pkg
+	}
+	return &specEnv{x: x, cur: st, old: old, names: names, noLocals: true, typePkg: tp}
 }
 
 func (x *Unit) applyContract(st *State, pc *preparedCall) []Term {
@@ -726,7 +730,7 @@ func (x *Unit) applyContract(st *State, pc *preparedCall) []Term {
 		for _, a := range targs {
 			as = append(as, a.Sort)
 		}
-		f := x.U.Fun(q("pure:"+pc.name), as, rs)
+		f := x.U.Fun(q("pure:"+x.canonPure(pc.name, x.pkg.PkgPath)), as, rs)
 		r := App(f, rs, targs...)
 		r.GoT = rt
 		r = x.define("pv", r)
@@ -1448,4 +1452,42 @@ func isKnownExternal(full string) bool {
 		return true
 	}
 	return false
+}
+
+// resolveTypeIn resolves a type expression in the given package (file scope, so imports are visible); "" = the unit's package.
+func (x *Unit) resolveTypeIn(pkgPath, s string) types.Type {
+	if pkgPath == "" || pkgPath == x.FU.Pkg.PkgPath {
+		return x.resolveType(s, x.FU.Body)
+	}
+	if pk, ok := x.P.Pkgs[pkgPath]; ok {
+		for _, f := range pk.Syntax {
+			if tv, err := types.Eval(x.P.Fset, pk.Types, f.End()-1, s); err == nil && tv.IsType() {
+				return tv.Type
+			}
+		}
+	}
+	return x.resolveType(s, x.FU.Body)
+}
+
+// canonPure: canonical name of the uninterpreted function behind a pure contract: <pkgname>.<Type>.<Method> or <pkgname>.<Func>
+func (x *Unit) canonPure(key, pkgPath string) string {
+	parts := strings.Split(key, ".")
+	if len(parts) >= 3 {
+		return key
+	}
+	if len(parts) == 2 {
+		// either Type.Method (unqualified) or pkg.Func
+		for _, pk := range x.P.Pkgs {
+			if pk.Name == parts[0] && pk.Types.Scope().Lookup(parts[1]) != nil {
+				return key
+			}
+		}
+	}
+	if pkgPath == "" {
+		pkgPath = x.FU.Pkg.PkgPath
+	}
+	if pk, ok := x.P.Pkgs[pkgPath]; ok {
+		return pk.Name + "." + key
+	}
+	return key
 }
